@@ -8,6 +8,7 @@ import (
 	"github.com/goatcms/goatcore/filesystem"
 	"github.com/goatcms/goatcore/varutil"
 	"github.com/goatcms/goatcore/varutil/goaterr"
+	"github.com/goatcms/goatcore/varutil/verifhook"
 )
 
 const (
@@ -53,6 +54,7 @@ func (fs *Filespace) Copy(src, dest string) (err error) {
 	if copiedNode, err = copyNode(srcNode, destNodeName); err != nil {
 		return err
 	}
+	verifhook.Yield("memfs.create.gap")
 	return destDir.addNode(copiedNode)
 }
 
@@ -83,6 +85,7 @@ func (fs *Filespace) CopyDirectory(src, dest string) (err error) {
 	if copiedDir, err = copyDir(srcDir, destNodeName); err != nil {
 		return err
 	}
+	verifhook.Yield("memfs.create.gap")
 	return destDir.addNode(copiedDir)
 }
 
@@ -113,6 +116,7 @@ func (fs *Filespace) CopyFile(src, dest string) (err error) {
 	if copiedFile, err = copyFile(srcFile, destNodeName); err != nil {
 		return err
 	}
+	verifhook.Yield("memfs.create.gap")
 	return destDir.addNode(copiedFile)
 }
 
@@ -189,6 +193,7 @@ func (fs *Filespace) Writer(destPath string) (writer filesystem.Writer, err erro
 	if dir, err = mkdirAllNodes(fs.root, destDirPath, filesystem.DefaultUnixDirMode); err != nil {
 		return nil, err
 	}
+	verifhook.Yield("memfs.create.gap")
 	dir.Lock()
 	defer dir.Unlock()
 	if node, err = dir.getNode(destNodeName); err != nil {
@@ -248,6 +253,7 @@ func (fs *Filespace) WriteFile(destPath string, data []byte, filemode os.FileMod
 	if dir, err = mkdirAllNodes(fs.root, destDirPath, filemode); err != nil {
 		return err
 	}
+	verifhook.Yield("memfs.create.gap")
 	dir.Lock()
 	defer dir.Unlock()
 	if node, err = dir.getNode(destNodeName); err != nil {
